@@ -96,6 +96,7 @@ static char * my_strdup(const char * source) {
 
 // Use Knuth's pseudo random generator to obfuscate email addresses predictably
 long ran_num_next(void);
+void ran_start(long seed);
 
 void mmd_print_char_html(DString * out, char c, bool obfuscate, bool line_breaks) {
 	switch (c) {
@@ -1380,6 +1381,13 @@ void mmd_export_token_html(DString * out, const char * source, token * t, scratc
 
 				if (scan_email(temp_char)) {
 					temp_bool = true;
+
+					if (!scratch->obfuscation_seeded) {
+						// Restart Knuth's generator with its default seed once per export, so that
+						// the obfuscated output depends only on the source, not on earlier exports
+						ran_start(314159L);
+						scratch->obfuscation_seeded = true;
+					}
 
 					if (strncmp("mailto:", temp_char, 7) != 0) {
 						mmd_print_string_html(out, "mailto:", true, false);
